@@ -2,6 +2,7 @@ import KoordVerif.Proofs.C07Base
 import KoordVerif.Proofs.C07Ext
 import KoordVerif.Model.C07RO
 import KoordVerif.Model.C07Shape
+import KoordVerif.Proofs.C07Ext3
 /-
 C07 — property theorems (DESIGN.md §4 C07).  All amounts are read value-wise: `drVal d minor k` is the
 amount of resource dimension `k` on device `minor`, a missing map entry or key counting as 0.
@@ -1727,5 +1728,140 @@ theorem restore_remained_val (s : TState) (rsv : Nat) (owners : List Nat) (ru : 
   · simp only [Option.some.injEq] at h
     subst h
     exact ⟨drSubtract_val _ _ _ _, rfl⟩
+
+/-! ## Extension 3 — the informer transformer and the allocation result in the cycle state (Model/C07Glue.lean) -/
+
+/-- **transform_renames_every_entry**: whatever mixture of deprecated and current resource names the device-allocated
+    annotation of a pod carries, in EVERY entry of EVERY device type, the handlers behind the informer's transformer
+    read — under the current names, the only ones a Device exposes — exactly the amounts the annotation's writer meant
+    (current name if present, else the deprecated one).  No entry is skipped, whether or not an earlier one was renamed. -/
+theorem transform_renames_every_entry (a : NAnn) : annCur (transformPodAnn a) = annSem a := by
+  rw [transformPodAnn_eq, annCur_transformAnn]
+
+/-- the transformer is idempotent (an object that is transformed again on a re-list / resync does not change) -/
+theorem transform_idempotent (a : NAnn) : transformPodAnn (transformPodAnn a) = transformPodAnn a := by
+  simp only [transformPodAnn_eq, transformAnn_idem]
+
+/-- an annotation in which no dimension carries both names leaves the transformer without any deprecated name -/
+theorem transform_legacy_free (a : NAnn) (h : noConflictB a = true) : legacyFreeB (transformPodAnn a) = true := by
+  rw [transformPodAnn_eq]
+  simp only [noConflictB, List.all_eq_true] at h
+  simp only [legacyFreeB, transformAnn, renameRL, List.all_eq_true, List.mem_map]
+  intro g' hg'
+  obtain ⟨g, hg, rfl⟩ := hg'
+  intro e' he'
+  simp only [List.mem_map] at he'
+  obtain ⟨e, he, rfl⟩ := he'
+  intro x' hx'
+  simp only [List.mem_map] at hx'
+  obtain ⟨x, hx, rfl⟩ := hx'
+  have := h g hg e he x hx
+  simp [renameQ_legacy_none x this]
+
+/-- an annotation written with current names only passes unchanged -/
+theorem transform_current_names_identity (a : NAnn) (h : legacyFreeB a = true) : transformPodAnn a = a := by
+  unfold transformPodAnn
+  have hc : annChanged a = false := by
+    simp only [legacyFreeB, List.all_eq_true] at h
+    cases hh : annChanged a with
+    | false => rfl
+    | true =>
+      simp only [annChanged, List.any_eq_true] at hh
+      obtain ⟨g, hg, e, he, x, hx, hxc⟩ := hh
+      have := h g hg e he x hx
+      simp only [renameChanged, Bool.and_eq_true] at hxc
+      cases h1 : x.1 <;> simp_all
+  simp [hc]
+
+/-- a pod with deprecated names (any number of entries) that reaches onPodAdd through the transformer — the restart /
+    re-list path of a running pod — is recorded with exactly the amounts its annotation means, entry by entry -/
+theorem tx_add_records_semantic (s : TState) (p t : Nat) (a : NAnn) (al : List (Nat × RL))
+    (hs : hasPod s p = false)
+    (hal : ((annSem a).find? (fun g => g.1 == t)).map (·.2) = some al) :
+    podsGet (run s (sevOps (.podAdd .obj p (txPodObj a t true false)))).pods p = some (recOf al) := by
+  have h1 : (txPodObj a t true false).alloc = some al := by
+    simp only [txPodObj, txAlloc, transform_renames_every_entry, hal]
+  have h2 : sevOps (.podAdd .obj p (txPodObj a t true false)) = [Op.add p al] := by
+    simp only [sevOps, decodeObj, if_true, updatePodOps, h1]
+    simp [txPodObj]
+  rw [h2, run_single]
+  exact add_records_allocation s p al hs
+
+example : annCur (transformPodAnn [(0, [(0, [(some 50, none), (none, none), (some 50, none)]),
+                                         (1, [(some 50, none), (none, none), (none, some 50)])])])
+    = [(0, [(0, [some 50, none, some 50]), (1, [some 50, none, some 50])])] := by decide
+
+/-- **device_transform_renames_every_device**: a Device object whose DeviceInfos report amounts under deprecated names
+    (an old koordlet), under current names, or mixed, reaches onDeviceAdd / onDeviceUpdate with, for EVERY device, the
+    amounts it means under the current names — the inventory the ledger's totals are built from. -/
+theorem device_transform_renames_every_device (inv : List NEntry) : invCur (transformInv inv) = invSem inv :=
+  invCur_transformInv inv
+
+/-- **filter_clears_trial_result**: between PreFilter and Reserve — Filter on any candidate nodes, ledger events on
+    any node — the cycle state never holds an allocation result, and the designation is what PreFilter decided. -/
+theorem filter_clears_trial_result (w : World) (ann : Option DevRes) (hint : Bool) (steps : List CStep) :
+    (cycRun w (cycPreFilter ann hint) steps).2.result = none ∧
+    (cycRun w (cycPreFilter ann hint) steps).2.designated = (if hint then ann else none) :=
+  cycRun_inv steps w (cycPreFilter ann hint) rfl
+
+/-- **reserve_allocates_at_commit_point**: whatever Filter calls (on whichever candidate nodes) and ledger events
+    preceded it, Reserve on node `x` runs the allocator on the ledger node `x` has AT THAT MOMENT (restricted to the
+    designated devices when PreFilter kept a designation) and commits exactly that result on node `x`; it fails, without
+    touching the ledger, exactly when that allocation fails. -/
+theorem reserve_allocates_at_commit_point (w : World) (ann : Option DevRes) (hint : Bool) (steps : List CStep)
+    (x : Nat) (minors : List Nat) (a : AllocReq) (p : Nat) :
+    let wc := cycRun w (cycPreFilter ann hint) steps
+    let s := wGet wc.1 x
+    cycReserve s minors a wc.2 p =
+      match allocate (cycView s minors wc.2) a with
+      | none => (s, wc.2, false)
+      | some ms => (addT s p (allocList a ms), { wc.2 with result := some ms }, true) := by
+  intro wc s
+  have hr : wc.2.result = none := (filter_clears_trial_result w ann hint steps).1
+  unfold cycReserve
+  simp only [hr, cycAllocate]
+  cases hal : allocate (cycView s minors wc.2) a with
+  | none => simp
+  | some ms => simp
+
+/-- every device Reserve commits is, at the commit point and on the selected node, an entry of the free map the
+    allocator saw that passes its three guards: permitted, non-zero, `LessThanOrEqual(request, free)` -/
+theorem reserve_commits_free_devices (w : World) (ann : Option DevRes) (hint : Bool) (steps : List CStep)
+    (x : Nat) (minors : List Nat) (a : AllocReq) (p : Nat) (s' : TState) (c' : PState) (ms : List Nat)
+    (h : cycReserve (wGet (cycRun w (cycPreFilter ann hint) steps).1 x) minors a
+          (cycRun w (cycPreFilter ann hint) steps).2 p = (s', c', true))
+    (hres : c'.result = some ms) :
+    let wc := cycRun w (cycPreFilter ann hint) steps
+    let s := wGet wc.1 x
+    s' = addT s p (allocList a ms) ∧
+    ∀ m ∈ ms, ∃ f, (m, f) ∈ (cycView s minors wc.2).free ∧ qualifies a (m, f) = true := by
+  intro wc s
+  have h0 := reserve_allocates_at_commit_point w ann hint steps x minors a p
+  simp only [] at h0
+  rw [h0] at h
+  cases hal : allocate (cycView s minors wc.2) a with
+  | none =>
+    have hal' : allocate (cycView (wGet (cycRun w (cycPreFilter ann hint) steps).1 x) minors
+        (cycRun w (cycPreFilter ann hint) steps).2) a = none := hal
+    simp [hal'] at h
+  | some r =>
+    have hal' : allocate (cycView (wGet (cycRun w (cycPreFilter ann hint) steps).1 x) minors
+        (cycRun w (cycPreFilter ann hint) steps).2) a = some r := hal
+    simp only [hal', Prod.mk.injEq] at h
+    obtain ⟨h1, h2, _⟩ := h
+    have hr : r = ms := by
+      rw [← h2] at hres
+      simpa using hres
+    subst hr
+    exact ⟨h1.symm, allocate_mem_free _ a r hal⟩
+
+/-- why the result must be cleared: a cycle state that still holds the trial result of ANOTHER node (minor 0 was free
+    there) makes Reserve commit it unchecked on a node whose device 0 is fully in use — 200 in use of 100 -/
+theorem stale_result_counterexample :
+    let busy : TState := addT (refreshT TState.empty [(0, [some 100])]) 1 [(0, [some 100])]
+    let a : AllocReq := { req := [some 100], desired := 1, npcie := 0, required := [], preferred := [] }
+    let stale : PState := { designated := some [(0, [some 100])], result := some [0] }
+    drVal (cycReserve busy [0] a stale 2).1.used 0 0 = 200 ∧ drVal busy.total 0 0 = 100 ∧
+    (cycReserve busy [0] a { stale with result := none } 2).2.2 = false := by decide
 
 end KoordVerif.C07
